@@ -6,7 +6,7 @@ HOOKS = {
   'add_only': True,
 }
 ENGINES = [
-  {'name': 'vx', 'path': '/verif/vx', 'serves_properties': ['C07'],
+  {'name': 'vx', 'path': '/verif/vx', 'serves_properties': ['C07', 'C12'],
    'kind_free_text': 'Verus 0.2026.09.13 on functions extracted mechanically from /repo on every run (byte-for-byte item text + listed rewrites), contracts spliced from units/<unit>/contracts.vrs'},
   {'name': 'kx', 'path': '/verif/kx', 'serves_properties': ['C14'],
    'kind_free_text': 'Kani 0.68 / CBMC 6.11 harness crates calling the real crates in /repo through path dependencies; loop-free full-domain harnesses are complete proofs, #[kani::unwind] harnesses are labelled bounded'},
@@ -19,10 +19,21 @@ NOT_APPLICABLE = {
   'C08': 'liveness over whole scheduling histories (fairness, deadlock iff nothing runnable): needs a protocol-level inductive invariant over fiber_queue, every waiter list and every fiber; contracts decide one call; Kani cannot construct a Vm',
   'C19': 'a property of Vm::repl / Vm::compile state across prompt entries; those functions call parser, resolver and compiler and can be neither extracted for Verus nor driven by Kani',
 }
-for _p in ['C01', 'C03', 'C04', 'C05', 'C06', 'C09', 'C10', 'C11', 'C12', 'C13', 'C15', 'C16', 'C17', 'C18', 'C20']:
+for _p in ['C01', 'C03', 'C04', 'C05', 'C06', 'C09', 'C10', 'C11', 'C13', 'C15', 'C16', 'C17', 'C18', 'C20']:
   NOT_APPLICABLE.setdefault(_p, 'planned (DESIGN.md section 4) but no check is registered yet in this commit; not claimed until its obligations are discharged on the unchanged tree')
 
 CHECKS = {
+  'C12': dict(
+    engine='vx',
+    technique='Verus contracts on the real peephole.rs: per-rule window preconditions, semantic-equivalence postconditions over an abstract stack machine, dispatcher loop invariant',
+    design_ref='DESIGN.md §4 C12',
+    level_text=('Unbounded deductive proof that the real peephole_optimize and each real rewrite (drop, load_multiple, eliminate_drop, invoke, invoke_super, '
+                'remove_dead_code, delimiter removal) return code that is equiv_prog to the input: same labels in order, same run() from the entry and from every label, '
+                'for every start state of an abstract stack machine (Drop/DropN/Dup/Get*/Set* interpreted, everything else an uninterpreted deterministic step); '
+                'line vectors stay in lock step and every emitted line is the line of the window it was rewritten from; termination and absence of index/overflow panics are proved too.'),
+    level_note=('Trusted: Verus/Z3/vstd; axioms A-invoke (meaning of the fused Invoke/SuperInvoke forms) in prelude.rs; A-delim (compiler emits ArgumentDelimiter before Call(n>0)); '
+                'A-raw (variables are a store separate from the operand stack); rewrites R1, R2 (slice-pattern match desugaring), R7, R10, R11, R13 with diffs in evidence.'),
+  ),
   'C07': dict(
     engine='vx',
     technique='Verus function contracts on the real ChannelQueue code (abstract view Seq<Value>, wf invariant), discharged by Z3',
